@@ -123,6 +123,7 @@ class Comparer(object):
         self.guards = []
         self.visited_pre = set()
         self.ignore = ()
+        self.extra_attrs = set()
 
     def goal(self, name, g):
         for pre in self.ignore:
@@ -356,8 +357,13 @@ class Comparer(object):
         for k in sorted(set(fa) | set(fb)):
             if k.startswith('_ghost'):
                 continue
-            if k not in fa or k not in fb:
-                self.mismatch('%s.%s' % (name, k), 'attribute present on one side only')
+            if k not in fb:
+                # attribute the contract does not mention (extra state kept by the code): not compared;
+                # it matters only through later calls, which the sequence cases exercise
+                self.extra_attrs.add('%s.%s' % (name, k))
+                continue
+            if k not in fa:
+                self.mismatch('%s.%s' % (name, k), 'attribute required by the contract is missing')
                 continue
             self.val('%s.%s' % (name, k), fa[k], fb[k])
 
@@ -435,9 +441,12 @@ def run_path(prog, registry, contract, body_q, case_build, prefix, shared, modul
     ipA = I.Interp(prog, stA, registry, modular=modular)
     ipA.no_spec_for = {target}
     fA = SymFactory(stA, ipA)
-    ipA.depth = 1          # builders reach their pre-states through callee contracts, like the spec run
-    argsA = case_build(fA)
-    ipA.depth = 0
+    ipA.modular = False    # builders reach their pre-states by running the real constructors / methods
+    try:
+        argsA = case_build(fA)
+    except SymRaise:
+        raise Infeasible()     # this path of the set-up calls was refused by the library: not a pre-state
+    ipA.modular = modular
     stA.in_build = False
     ntok0, noid0 = stA.next_tok, stA.next_oid
     names = name_pre_state(stA, argsA)
@@ -449,8 +458,12 @@ def run_path(prog, registry, contract, body_q, case_build, prefix, shared, modul
     ipB = I.Interp(prog, stB, registry, modular=modular)
     ipB.no_spec_for = set()
     fB = SymFactory(stB, ipB)
-    ipB.depth = 1
-    argsB = case_build(fB)
+    ipB.modular = False
+    try:
+        argsB = case_build(fB)
+    except SymRaise:
+        raise Infeasible()
+    ipB.modular = modular
     stB.in_build = False
     if (stB.next_tok, stB.next_oid) != (ntok0, noid0):
         raise Unsupported('non-deterministic case builder')
